@@ -529,6 +529,7 @@ public:
   std::map<string, Stats> stats;
   string only;
   bool quadOnly = false;
+  bool extra1d = false; // scenario of the extra one-dimensional series: objective mostly elsewhere at init(), tiny budgets
   bool steer = true; // keep the main scenarios out of the regions of the known findings (probes switch it off)
 
   explicit Driver(uint64_t seed) : g(seed), stats(), only() {}
@@ -622,6 +623,7 @@ public:
     long maxEval = g.chance(1, 4) ? budgets[g.below(10)] : 20000;
     // the line search is normally given thousands of evaluations; its budget-exhaustion path needs tiny ones
     if (opt == "NewtonBacktrack" && g.coin()) maxEval = budgets[g.below(5)];
+    if (extra1d && g.chance(2, 5)) maxEval = budgets[g.below(5)];
     int hist = static_cast<int>(g.below(10)); // history shape
     bool early = g.chance(1, 5);
     bool multi = !(oneD || opt == "NewtonBacktrack" || opt == "Meta");
@@ -636,6 +638,7 @@ public:
     // where the objective sits when init() is called: at the start (what most code does), at its minimiser
     // (as a previous run would have left it) or anywhere; the start is what init() is given
     int fat = static_cast<int>(g.below(10));
+    if (extra1d && fat < 4 && g.coin()) fat = 4 + static_cast<int>(g.below(6)); // start 20 %, minimiser 40 %, anywhere 40 %
     vector<double> sit = start;
     if (fat >= 4 && fat < 7) sit = f->m;
     else if (fat >= 7)
@@ -1168,6 +1171,17 @@ int main(int argc, char** argv)
       d.runOne(opt, id);
     }
     else if (only.empty() || only == "Bracket") d.runBracket(id);
+  }
+  // extra series for the cheap one-dimensional optimisers: the objective sits at its minimiser / anywhere when
+  // init(start) is called (as after an earlier run), budgets of 1..5 evaluations in 40 % of the runs
+  static const char* ONED[] = {"GoldenSection", "Brent", "Newton1D", "NewtonBacktrack"};
+  long nx = only.empty() ? n / 2 : 0;
+  d.extra1d = true;
+  for (long id = n + nbr; id < n + nbr + nx; ++id)
+  {
+    if (one >= 0 && id != one) continue;
+    d.g = Rng(base ^ (static_cast<uint64_t>(id + 1) * 0x9e3779b97f4a7c15ULL));
+    d.runOne(ONED[(id - n - nbr) % 4], id);
   }
   tracer().close();
   if (showStats)
